@@ -600,7 +600,7 @@ def profile_for(i):
 
 def shards(tier, seed):
     n_shards = 96 if tier == 'thorough' else 32
-    per = 300 if tier == 'thorough' else 25
+    per = 420 if tier == 'thorough' else 25
     out = [('gen', i, per, seed, tier) for i in range(n_shards)]
     out += [('hyp', i, 120 if tier == 'thorough' else 12, seed, tier) for i in range(16 if tier == 'thorough' else 4)]
     out += [('tmpl', k, seed, tier) for k in range(len(TEMPLATES))]
